@@ -739,7 +739,12 @@ func runC03(c *Ctx) {
 			}
 			if v != nil {
 				v.walk(func(x *Term) bool {
-					if x.Op != "call" || x.Sym != "math.Exp" && x.Sym != "math.Exp2" || len(x.Args) != 1 {
+					// the exponential is the inverse of the logarithm the multiplier was built with: 1/Log ↔ Exp, 1/Log2 ↔ Exp2
+					wantExp := "math.Exp2"
+					if strings.HasPrefix(mi.t.Obj().Name(), "Logarithmic") {
+						wantExp = "math.Exp"
+					}
+					if x.Op != "call" || x.Sym != wantExp || len(x.Args) != 1 {
 						return true
 					}
 					e := x.Args[0]
